@@ -149,7 +149,51 @@ func (c16) Gen(w *e.World, r *e.RNG) e.Step {
 			pc.PC, pc.M = "staking", "delegation"
 			pc.Who = fmt.Sprintf("fic:%d", r.Intn(nFIC))
 		}
-		if ds := delegations(w); len(ds) > 0 && r.Chance(0.6) && pc.PC == "staking" {
+		if r.Chance(0.6) {
+			// the wider read-only surface (compared as canonical trees, see c16query.go)
+			pc.Val2 = r.Intn(len(w.Vals))
+			switch r.Intn(11) {
+			case 0:
+				pc.PC, pc.M = "staking", "validator"
+			case 1, 2:
+				pc.PC, pc.M = "staking", "validators"
+				pc.To = []string{"", "", "BOND_STATUS_BONDED", "BOND_STATUS_UNBONDING", "BOND_STATUS_UNBONDED"}[r.Intn(5)]
+			case 3:
+				pc.PC, pc.M = "staking", "redelegation"
+				for _, i := range allIdx(w) {
+					if reds := w.App().StakingKeeper.GetRedelegations(w.Ctx(), w.Acct(i).Acc, 5); len(reds) > 0 && r.Chance(0.7) {
+						red := reds[r.Intn(len(reds))]
+						pc.Who = fmt.Sprintf("acct:%d", i)
+						for vi, v := range w.Vals {
+							if v.ValAddr.String() == red.ValidatorSrcAddress {
+								pc.Val = vi
+							}
+							if v.ValAddr.String() == red.ValidatorDstAddress {
+								pc.Val2 = vi
+							}
+						}
+						break
+					}
+				}
+			case 4:
+				pc.PC, pc.M = "staking", "allowance"
+				pc.To = fmt.Sprintf("fic:%d", r.Intn(nFIC))
+				pc.Methods = []string{stakingMsgURLs[r.Intn(len(stakingMsgURLs))]}
+			case 5:
+				pc.PC, pc.M = "distribution", "delegationRewards"
+			case 6:
+				pc.PC, pc.M = "distribution", "delegationTotalRewards"
+			case 7:
+				pc.PC, pc.M = "distribution", "delegatorValidators"
+			case 8:
+				pc.PC, pc.M = "distribution", "delegatorWithdrawAddress"
+			case 9:
+				pc.PC, pc.M = "distribution", "validatorCommission"
+			default:
+				pc.PC, pc.M = "distribution", "validatorOutstandingRewards"
+			}
+		}
+		if ds := delegations(w); len(ds) > 0 && r.Chance(0.6) && pc.M != "redelegation" && pc.M != "validators" {
 			d := ds[r.Intn(len(ds))]
 			pc.Who, pc.Val = fmt.Sprintf("acct:%d", d.a), int(d.val)
 		}
@@ -261,7 +305,7 @@ func (p c16) Exec(w *e.World, st *e.Step) *e.Violation {
 		w.Stats.Oracle++
 		w.Stats.Probe("native_vs_precompile_compared")
 		name := pc.PC + "." + pc.M
-		desc := fmt.Sprintf("%s by acct %d with %s at height %d: native code %d (%s), precompile code %d vm error %q", name, st.A, trunc(string(st.P), 300), w.Height, resN.Code, trunc(resN.Log, 100), resP.Code, vmErr)
+		desc := fmt.Sprintf("%s by acct %d with %s at height %d: native code %d (%s), precompile code %d (%s) vm error %q", name, st.A, trunc(string(st.P), 300), w.Height, resN.Code, trunc(resN.Log, 100), resP.Code, trunc(resP.Log, 300), vmErr)
 		if okN != okP {
 			which := "native-succeeds-precompile-fails"
 			if okP {
@@ -300,7 +344,7 @@ func (p c16) query(w *e.World, st *e.Step) *e.Violation {
 		return nil
 	}
 	m := ew(w)
-	data, ok := m.packPCall(w, &pc)
+	data, ok := m.packQuery(w, &pc)
 	if !ok {
 		return nil
 	}
@@ -403,6 +447,9 @@ func (p c16) query(w *e.World, st *e.Step) *e.Violation {
 		if got != n {
 			return e.Violatef("native-equivalence", "query-differs:staking.unbondingDelegation", "unbondingDelegation(%s, val %d): precompile reports %d entries, staking module %d (%s)", pc.Who, pc.Val, got, n, trunc(s, 200))
 		}
+		return compareQueryTree(w, &pc, res.Ret, acc)
+	default:
+		return compareQueryTree(w, &pc, res.Ret, acc)
 	}
 	return nil
 }
